@@ -80,19 +80,44 @@ Definition initial_tool (x0 : state) (m : nat) : nat :=
      end(older) + sd or later - while it is still being set up the machine is blocked until end(older) + sd or later (GAP);
    - the oldest one is separated in the same way from the start of the episode by matrix[(initial tool, its tool)]
      (sq_first). *)
+Theorem C09_setup_sequence_reachable_every_instance :
+  forall (sigma : oracle) (i : inst) (fuel : nat) (x0 : state) (joker0 : Z) (ta : bool) (r : result) (m : mw),
+    inst_nonneg_b i = true ->
+    clock_b x0 = true -> wfs_b i x0 = true -> fresh2_b i x0 = true -> nodep_b x0 = true ->
+    reach sigma i fuel x0 joker0 ta r m ->
+    exists g, SEQ i (initial_tool x0) (s_now x0) (r_x r) g.
+Proof.
+  intros sigma i fuel x0 joker0 ta r m Hnn C W Fr Dn H.
+  apply (run_setup_sequence sigma i Hnn (initial_tool x0) (s_now x0) fuel x0 joker0 ta r m); auto.
+  intros m0 ms Hms. unfold initial_tool. rewrite Hms. reflexivity.
+Qed.
+Print Assumptions C09_setup_sequence_reachable_every_instance.
+
+(* the same for the instance class of the earlier rounds (corollary) *)
 Theorem C09_setup_sequence_reachable_flex :
   forall (sigma : oracle) (i : inst) (fuel : nat) (x0 : state) (joker0 : Z) (ta : bool) (r : result) (m : mw),
     inst_nonneg_b i = true -> flex_post_b i = true ->
     clock_b x0 = true -> wfs_b i x0 = true -> fresh2_b i x0 = true -> nodep_b x0 = true ->
     reach sigma i fuel x0 joker0 ta r m ->
     exists g, SEQ i (initial_tool x0) (s_now x0) (r_x r) g.
-Proof.
-  intros sigma i fuel x0 joker0 ta r m Hnn Hf C W Fr Dn H.
-  apply (flex_setup_sequence sigma i Hnn Hf (initial_tool x0) (s_now x0) fuel x0 joker0 ta r m); auto.
-  intros m0 ms Hms. unfold initial_tool. rewrite Hms. reflexivity.
-Qed.
+Proof. intros. eapply C09_setup_sequence_reachable_every_instance; eauto. Qed.
 Print Assumptions C09_setup_sequence_reachable_flex.
 
+Theorem C09_setup_sequence_micro_states_every_instance :
+  forall (sigma : oracle) (i : inst) (fuel : nat) (x0 : state) (joker0 : Z) (ta : bool) (r : result) (m : mw)
+         (a : Z) (r' : result) (m' : mw) (lg : mlog),
+    inst_nonneg_b i = true ->
+    clock_b x0 = true -> wfs_b i x0 = true -> fresh2_b i x0 = true -> nodep_b x0 = true ->
+    reach sigma i fuel x0 joker0 ta r m -> mw_step sigma i fuel r m a = MOk r' m' lg ->
+    forall tr y, In (tr, y) lg -> exists g, SEQ i (initial_tool x0) (s_now x0) y g.
+Proof.
+  intros sigma i fuel x0 joker0 ta r m a r' m' lg Hnn C W Fr Dn H Hm tr y Hin.
+  apply (run_micro_setup_sequence sigma i Hnn (initial_tool x0) (s_now x0) fuel x0 joker0 ta r m a r' m' lg) with (tr := tr); auto.
+  intros m0 ms Hms. unfold initial_tool. rewrite Hms. reflexivity.
+Qed.
+Print Assumptions C09_setup_sequence_micro_states_every_instance.
+
+(* the same for the instance class of the earlier rounds (corollary) *)
 Theorem C09_setup_sequence_micro_states_flex :
   forall (sigma : oracle) (i : inst) (fuel : nat) (x0 : state) (joker0 : Z) (ta : bool) (r : result) (m : mw)
          (a : Z) (r' : result) (m' : mw) (lg : mlog),
@@ -100,28 +125,48 @@ Theorem C09_setup_sequence_micro_states_flex :
     clock_b x0 = true -> wfs_b i x0 = true -> fresh2_b i x0 = true -> nodep_b x0 = true ->
     reach sigma i fuel x0 joker0 ta r m -> mw_step sigma i fuel r m a = MOk r' m' lg ->
     forall tr y, In (tr, y) lg -> exists g, SEQ i (initial_tool x0) (s_now x0) y g.
-Proof.
-  intros sigma i fuel x0 joker0 ta r m a r' m' lg Hnn Hf C W Fr Dn H Hm tr y Hin.
-  apply (flex_micro_setup_sequence sigma i Hnn Hf (initial_tool x0) (s_now x0) fuel x0 joker0 ta r m a r' m' lg) with (tr := tr); auto.
-  intros m0 ms Hms. unfold initial_tool. rewrite Hms. reflexivity.
-Qed.
+Proof. intros. eapply C09_setup_sequence_micro_states_every_instance; eauto. Qed.
 Print Assumptions C09_setup_sequence_micro_states_flex.
 
 (* the same on the records alone (clause setup_gap_b of SM/Inv.v, evaluated on every implementation state by the
    monitors): two DONE operations p, o of one machine, p started strictly before o and no other started operation of
    that machine started in between: start(o) >= end(p) + matrix[(tool p, tool o)] for a deterministic entry *)
+Theorem C09_consecutive_operations_separated_every_instance :
+  forall (sigma : oracle) (i : inst) (fuel : nat) (x0 : state) (joker0 : Z) (ta : bool) (r : result) (m : mw),
+    inst_nonneg_b i = true ->
+    clock_b x0 = true -> wfs_b i x0 = true -> fresh2_b i x0 = true -> nodep_b x0 = true ->
+    reach sigma i fuel x0 joker0 ta r m -> setup_gap_b i (r_x r) = true.
+Proof.
+  intros sigma i fuel x0 joker0 ta r m Hnn C W Fr Dn H.
+  apply (run_setup_gap sigma i Hnn (initial_tool x0) (s_now x0) fuel x0 joker0 ta r m); auto.
+  intros m0 ms Hms. unfold initial_tool. rewrite Hms. reflexivity.
+Qed.
+Print Assumptions C09_consecutive_operations_separated_every_instance.
+
+(* the same for the instance class of the earlier rounds (corollary) *)
 Theorem C09_consecutive_operations_separated_flex :
   forall (sigma : oracle) (i : inst) (fuel : nat) (x0 : state) (joker0 : Z) (ta : bool) (r : result) (m : mw),
     inst_nonneg_b i = true -> flex_post_b i = true ->
     clock_b x0 = true -> wfs_b i x0 = true -> fresh2_b i x0 = true -> nodep_b x0 = true ->
     reach sigma i fuel x0 joker0 ta r m -> setup_gap_b i (r_x r) = true.
-Proof.
-  intros sigma i fuel x0 joker0 ta r m Hnn Hf C W Fr Dn H.
-  apply (flex_setup_gap sigma i Hnn Hf (initial_tool x0) (s_now x0) fuel x0 joker0 ta r m); auto.
-  intros m0 ms Hms. unfold initial_tool. rewrite Hms. reflexivity.
-Qed.
+Proof. intros. eapply C09_consecutive_operations_separated_every_instance; eauto. Qed.
 Print Assumptions C09_consecutive_operations_separated_flex.
 
+Theorem C09_consecutive_operations_separated_micro_states_every_instance :
+  forall (sigma : oracle) (i : inst) (fuel : nat) (x0 : state) (joker0 : Z) (ta : bool) (r : result) (m : mw)
+         (a : Z) (r' : result) (m' : mw) (lg : mlog),
+    inst_nonneg_b i = true ->
+    clock_b x0 = true -> wfs_b i x0 = true -> fresh2_b i x0 = true -> nodep_b x0 = true ->
+    reach sigma i fuel x0 joker0 ta r m -> mw_step sigma i fuel r m a = MOk r' m' lg ->
+    forall tr y, In (tr, y) lg -> setup_gap_b i y = true.
+Proof.
+  intros sigma i fuel x0 joker0 ta r m a r' m' lg Hnn C W Fr Dn H Hm tr y Hin.
+  apply (run_micro_setup_gap sigma i Hnn (initial_tool x0) (s_now x0) fuel x0 joker0 ta r m a r' m' lg) with (tr := tr); auto.
+  intros m0 ms Hms. unfold initial_tool. rewrite Hms. reflexivity.
+Qed.
+Print Assumptions C09_consecutive_operations_separated_micro_states_every_instance.
+
+(* the same for the instance class of the earlier rounds (corollary) *)
 Theorem C09_consecutive_operations_separated_micro_states_flex :
   forall (sigma : oracle) (i : inst) (fuel : nat) (x0 : state) (joker0 : Z) (ta : bool) (r : result) (m : mw)
          (a : Z) (r' : result) (m' : mw) (lg : mlog),
@@ -129,11 +174,7 @@ Theorem C09_consecutive_operations_separated_micro_states_flex :
     clock_b x0 = true -> wfs_b i x0 = true -> fresh2_b i x0 = true -> nodep_b x0 = true ->
     reach sigma i fuel x0 joker0 ta r m -> mw_step sigma i fuel r m a = MOk r' m' lg ->
     forall tr y, In (tr, y) lg -> setup_gap_b i y = true.
-Proof.
-  intros sigma i fuel x0 joker0 ta r m a r' m' lg Hnn Hf C W Fr Dn H Hm tr y Hin.
-  apply (flex_micro_setup_gap sigma i Hnn Hf (initial_tool x0) (s_now x0) fuel x0 joker0 ta r m a r' m' lg) with (tr := tr); auto.
-  intros m0 ms Hms. unfold initial_tool. rewrite Hms. reflexivity.
-Qed.
+Proof. intros. eapply C09_consecutive_operations_separated_micro_states_every_instance; eauto. Qed.
 Print Assumptions C09_consecutive_operations_separated_micro_states_flex.
 
 (* the unfolded reading of one neighbouring pair, both DONE *)
